@@ -5,6 +5,8 @@
 package c14
 
 import (
+	"sync"
+
 	"github.com/vmware/go-ipfix/pkg/exporter"
 
 	"verifh/common"
@@ -137,6 +139,35 @@ func Check_Contracts() {
 		sx.Assert(len(conn.Writes) == before, "refresh-wrote-after-close")
 		sx.Reach("closed-twice")
 	}
+}
+
+// Check_ConcurrentClose: CloseConnToCollector from two goroutines at once (and
+// a background body closing at the same time), under EVERY interleaving of
+// their synchronisation points (atomic operations, channel close, WaitGroup):
+// no panic, the connection is closed exactly once, every caller returns.
+func Check_ConcurrentClose() {
+	conn := &common.FakeConn{}
+	ep := exporter.VerifNewExportingProcess(conn, 1)
+	second := sx.Choose("secondCloser", 2) // 0: CloseConnToCollector, 1: the internal close a background goroutine performs
+	var wg sync.WaitGroup
+	wg.Add(2)
+	go func() {
+		defer wg.Done()
+		ep.CloseConnToCollector()
+	}()
+	go func() {
+		defer wg.Done()
+		if second == 0 {
+			ep.CloseConnToCollector()
+		} else {
+			ep.VerifCloseInternal()
+		}
+	}()
+	wg.Wait()
+	sx.Assert(conn.Closed == 1, "connection-closed-other-than-exactly-once")
+	_, err := ep.SendSet(common.TemplateSet(300, kinds))
+	sx.Assert(err != nil && len(conn.Writes) == 0, "bytes-written-after-close")
+	sx.Reach("both-returned")
 }
 
 var Table = map[string]runner.Entry{
